@@ -45,6 +45,30 @@ Theorem c11_raising_hook_refuted : forall P w, Lifecycle.cleanup_clears_in_final
 Proof. exact raising_hook_refuted. Qed.
 Print Assumptions c11_raising_hook_refuted.
 
+(* 5d. close() is not atomic ("both at once"): it sets the flag, runs the before_closed hook / fetches the root - requests during which
+       the side serves - and only then writes its own close request and cleans up; [ECloseServing] is a close() during whose serving the
+       PEER's close request is dispatched. Theorems 1-3 cover it (it is an entry point of every history: clean afterwards, hook at most
+       once). What the handler's form decides is what close() raises: with the guarded handler (_cleanup(_anyway=False)) nothing of its
+       own; with the raw cleanup as handler the cleanup at the end of the same close() finds the handler table already deleted -
+       AttributeError out of close() on a side where nothing else went wrong. [c11_live_close_serving] says which holds on this tree. *)
+Theorem c11_close_while_serving_quiet : forall P w s, core_ok P = true -> Lifecycle.handle_close_guarded P = true -> Inv s -> closed s = false -> w <> WErr ->
+  step P false (ECloseServing w) s = ({| closed := true; hooks := 1; has_root := false; chan_open := false |}, RNone).
+Proof. exact close_while_serving_quiet. Qed.
+Theorem c11_close_while_serving_refuted : forall P w, core_ok P = true -> Lifecycle.handle_close_guarded P = false ->
+  step P false (ECloseServing w) fresh = ({| closed := true; hooks := 1; has_root := false; chan_open := false |}, RAttr).
+Proof. exact close_while_serving_refuted. Qed.
+Theorem c11_live_close_serving :
+  (Lifecycle.handle_close_guarded Pgen = true /\ forall w, w <> WErr -> snd (step Pgen false (ECloseServing w) fresh) = RNone)
+  \/ (Lifecycle.handle_close_guarded Pgen = false /\ forall w, snd (step Pgen false (ECloseServing w) fresh) = RAttr).
+Proof.
+  destruct (Lifecycle.handle_close_guarded Pgen) eqn:E.
+  - left. split; [reflexivity|]. intros w Hw. rewrite (close_while_serving_quiet Pgen w fresh tie_core E inv_fresh eq_refl Hw). reflexivity.
+  - right. split; [reflexivity|]. intros w. rewrite (close_while_serving_refuted Pgen w tie_core E). reflexivity.
+Qed.
+Print Assumptions c11_close_while_serving_quiet.
+Print Assumptions c11_close_while_serving_refuted.
+Print Assumptions c11_live_close_serving.
+
 (* 5c. the property's second sentence, over the requests of a side (issued at any time, answered or not, the side ending in any way):
        once the side has ended nobody keeps waiting - every request has its value (exactly when the peer's reply was dispatched:
        no phantom values) or fails with EOFError; a request issued after the end fails with EOFError and registers nothing.
@@ -77,7 +101,8 @@ Print Assumptions c11_live.
 Example c11_histories :
   ended_clean (runs std_params false [EClose WErr; EClose WOk; EHandleClose] fresh)
   /\ ended_clean (runs std_params true [EServeReadEof InWait; EClose WOk; EDispatchEof InServeAll] fresh)
-  /\ hooks (runs std_params true [EDispatchEof InWait; EHandleClose; EServeReadEof InServeAll; EClose WEof] fresh) = 1.
+  /\ hooks (runs std_params true [EDispatchEof InWait; EHandleClose; EServeReadEof InServeAll; EClose WEof] fresh) = 1
+  /\ ended_clean (runs std_params false [ECloseServing WEof; EClose WOk] fresh).
 Proof. vm_compute. repeat split. Qed.
 (* requests 1 and 2 issued, 1 answered, the peer closes, request 3 issued afterwards: 1 has its value, 2 and 3 fail with EOFError *)
 Example c11_requests_sample :
